@@ -38,7 +38,7 @@ PROP_MODULES = {
     "C16": [("C16", r".*"), ("C16Static", r".*")],
     "C17": [("C17", r".*"), ("C17Names", r".*"), ("C17Extra", r".*"), ("C17ExtraU", r".*"), ("GenTies", r"kindNames"), ("C15", r"parse_total")],
     "C18": [("C18", r".*"), ("C01Prime", r"lookup|computeTables|estimateMemory"), ("GenTies", r"MaxMem|EstimateMemory"),
-            ("CodeTies", r"estimateMemory_tie"), ("C01Ext", r"log")],
+            ("CodeTies", r"estimateMemory_tie"), ("C01Ext", r"log"), ("C18Tables", r".*")],
 }
 
 
@@ -129,7 +129,7 @@ def proof_side(pid, res, tier):
         extra = set(ax) - ALLOWED_AXIOMS
         # the assembly corollaries "for every field Define returns over the real database" (Props/C01.lean)
         # import C04's table sweeps and inherit their native_decide axioms (DESIGN.md §2); nothing else may
-        if pid in NATIVE_OK or n.startswith("Algobra.C01.") or n.startswith("Algobra.C04Full.") or n.endswith("_define") or n.endswith("fieldRoundTripB") or n.endswith("C15_full_bounded_partial") or n.endswith("C15_full_bounded"):
+        if pid in NATIVE_OK or n.startswith("Algobra.C01.") or n.startswith("Algobra.C04Full.") or n.endswith("_define") or n.endswith("fieldRoundTripB") or n.endswith("C15_full_bounded_partial") or n.endswith("C15_full_bounded") or n.endswith("C18Tables.define_ext_tables"):
             if any("._native.native_decide.ax_" in a for a in ax):
                 info.setdefault("native_dependent", []).append(n)
             extra -= NATIVE_AXIOMS
